@@ -2,8 +2,11 @@ package main
 
 import (
 	"crypto/ecdsa"
+	"encoding/hex"
 	"fmt"
 	"math/big"
+	"sort"
+	"strings"
 
 	"github.com/MinterTeam/minter-go-node/coreV2/check"
 	"github.com/MinterTeam/minter-go-node/coreV2/state"
@@ -37,6 +40,7 @@ type Gen struct {
 	CustomGasPct int // percentage of txs paying commission in a custom coin
 	MultisigPct  int
 	Recent       [][]byte // recently delivered raw txs (for replay stream)
+	NearVotes    bool
 }
 
 func (g *Gen) cs() *state.CheckState { return g.N.App.CurrentState() }
@@ -522,21 +526,21 @@ func (g *Gen) OfType(t tx.TxType, height uint64) *GenTx {
 			s = c.OwnerAddress
 			gas = 0
 		}
-		return g.Build(t, tx.SetHaltBlockData{PubKey: pk, Height: height + uint64(g.rint(20)) - 2}, s, gas)
+		return g.Build(t, tx.SetHaltBlockData{PubKey: pk, Height: g.voteHeight(height)}, s, gas)
 	case tx.TypeVoteUpdate:
 		pk := g.pickPubKey(true)
 		if c := cs.Candidates().GetCandidate(pk); c != nil && g.rint(5) != 0 {
 			s = c.OwnerAddress
 			gas = 0
 		}
-		return g.Build(t, tx.VoteUpdateDataV230{PubKey: pk, Height: height + uint64(g.rint(20)) - 2, Version: []string{"v310", "v320", "v330", "v300"}[g.rint(4)]}, s, gas)
+		return g.Build(t, tx.VoteUpdateDataV230{PubKey: pk, Height: g.voteHeight(height), Version: []string{"v310", "v320", "v330", "v300"}[g.rint(4)]}, s, gas)
 	case tx.TypeVoteCommission:
 		pk := g.pickPubKey(true)
 		if c := cs.Candidates().GetCandidate(pk); c != nil && g.rint(5) != 0 {
 			s = c.OwnerAddress
 			gas = 0
 		}
-		d := g.voteCommissionData(pk, height+uint64(g.rint(20))-2, g.rint(3))
+		d := g.voteCommissionData(pk, g.voteHeight(height), g.rint(3))
 		return g.Build(t, d, s, gas)
 	case tx.TypeCreateSwapPool:
 		c0, c1 := g.pickCoin(), g.pickCoin()
@@ -647,6 +651,17 @@ func (g *Gen) OfType(t tx.TxType, height uint64) *GenTx {
 		return g.redeemCheck(height)
 	}
 	return g.Build(tx.TypeSend, tx.SendData{Coin: 0, To: g.pickAddr(), Value: big.NewInt(1)}, s, 0)
+}
+
+// voteHeight picks the height a governance vote refers to.
+func (g *Gen) voteHeight(height uint64) uint64 {
+	if g.NearVotes {
+		if g.rint(12) == 0 {
+			return height - 1
+		}
+		return height + uint64(g.rint(4))
+	}
+	return height + uint64(g.rint(20)) - 2
 }
 
 func (g *Gen) minBuy() *big.Int {
@@ -881,3 +896,76 @@ func (g *Gen) forgedMultisig(base *GenTx) *GenTx {
 }
 
 func fmtAddr(a types.Address) string { return fmt.Sprintf("%x", a[:]) }
+
+// orderDance: a taker trade that partially fills the best committed order of some pool side, followed (same block)
+// by the owner's cancellation of exactly that order. Returns nil when no suitable committed order exists.
+func (g *Gen) orderDance(view Dump) []*GenTx {
+	type ord struct {
+		id             uint32
+		c0, c1         types.CoinID
+		sale           bool
+		v0, v1         *big.Int
+		owner          types.Address
+	}
+	var all []ord
+	for k, v := range view {
+		if !strings.HasPrefix(k, "o ") {
+			continue
+		}
+		var o ord
+		var sale, own string
+		var s0, s1 string
+		var hgt uint64
+		if _, err := fmt.Sscanf(k, "o %d", &o.id); err != nil {
+			continue
+		}
+		if _, err := fmt.Sscanf(v, "%d %d %s %s %s %s %d", &o.c0, &o.c1, &sale, &s0, &s1, &own, &hgt); err != nil {
+			continue
+		}
+		o.sale = sale == "true"
+		o.v0, o.v1 = bi(s0), bi(s1)
+		if b, err := hex.DecodeString(own); err == nil && len(b) == 20 {
+			copy(o.owner[:], b)
+		}
+		if g.W.KeyOf[o.owner] == nil || o.v0.Sign() <= 0 || o.v1.Sign() <= 0 {
+			continue
+		}
+		all = append(all, o)
+	}
+	if len(all) == 0 {
+		return nil
+	}
+	sort.Slice(all, func(i, j int) bool { return all[i].id < all[j].id })
+	pick := all[g.rint(len(all))]
+	// best order of the same pool side: most bought coin per sold coin for the taker
+	best := pick
+	for _, o := range all {
+		if o.c0 == pick.c0 && o.c1 == pick.c1 && o.sale == pick.sale {
+			// compare o.v1/o.v0 > best.v1/best.v0
+			if new(big.Int).Mul(o.v1, best.v0).Cmp(new(big.Int).Mul(best.v1, o.v0)) > 0 {
+				best = o
+			}
+		}
+	}
+	sellCoin, buyCoin := best.c0, best.c1
+	if !best.sale {
+		sellCoin, buyCoin = best.c1, best.c0
+	}
+	amount := new(big.Int).Div(new(big.Int).Mul(best.v0, big.NewInt(int64(30+g.rint(50)))), big.NewInt(100))
+	var taker types.Address
+	found := false
+	for _, a := range g.W.Addrs {
+		if a != best.owner && g.cs().Accounts().GetBalance(a, sellCoin).Cmp(new(big.Int).Mul(amount, big.NewInt(2))) > 0 {
+			taker, found = a, true
+			break
+		}
+	}
+	if !found {
+		return nil
+	}
+	t1 := g.Build(tx.TypeSellSwapPool, tx.SellSwapPoolDataV260{Coins: []types.CoinID{sellCoin, buyCoin}, ValueToSell: amount, MinimumValueToBuy: big.NewInt(1)}, taker, 0)
+	t1.Note = "dance:fill"
+	t2 := g.Build(tx.TypeRemoveLimitOrder, tx.RemoveLimitOrderData{ID: best.id}, best.owner, 0)
+	t2.Note = "dance:cancel"
+	return []*GenTx{t1, t2}
+}
